@@ -82,7 +82,7 @@ class Ctx:
     def _slow_check(self, extra):
         self.slow_queries += 1
         try:
-            s2 = z3.Then("simplify", "ackermannize_bv", "simplify", "bit-blast", "sat").solver()
+            s2 = z3.TryFor(z3.Then("simplify", "ackermannize_bv", "simplify", "bit-blast", "sat"), self.timeout_ms).solver()
             s2.set("timeout", self.timeout_ms)
             s2.add(*self.solver.assertions())
             s2.add(*extra)
@@ -99,7 +99,7 @@ class Ctx:
             # model finding only: stochastic local search can produce a witness (sat) for circuits
             # on which CDCL stalls (e.g. two different hash circuits); it can never support 'holds'
             try:
-                s3 = z3.Then("simplify", "ackermannize_bv", "simplify", "qfbv-sls").solver()
+                s3 = z3.TryFor(z3.Then("simplify", "ackermannize_bv", "simplify", "qfbv-sls"), 30000).solver()
                 s3.set("timeout", 30000)
                 s3.add(*self.solver.assertions())
                 s3.add(*extra)
